@@ -74,3 +74,37 @@ def pred_instance(points, skel, score=1.0, point_scores=None, track=None):
     if point_scores is None:
         point_scores = np.ones(len(pts))
     return sio.PredictedInstance.from_numpy(pts, skeleton=skel, point_scores=np.asarray(point_scores, float), score=float(score), track=track)
+
+
+def coded_video(pid, name, n_frames, H, W, mode="rgb"):
+    """Raw HDF5 video whose pixels encode their own coordinates (see vf/geom.py).
+
+    mode "rgb": R = x+OFFSET, G = y+OFFSET, B = 128+frame; "x" / "y": a single coded channel in R
+    (used for grayscale pipelines, decoded from two runs)."""
+    import sleap_io as sio
+    from vf import geom
+
+    frames = np.zeros((n_frames, H, W, 3), np.uint8)
+    for f in range(n_frames):
+        fr = geom.ramp_frame_uint8(H, W, f)
+        if mode == "x":
+            fr = np.stack([fr[..., 0], np.zeros_like(fr[..., 0]), np.zeros_like(fr[..., 0])], -1)
+        elif mode == "y":
+            fr = np.stack([fr[..., 1], np.zeros_like(fr[..., 0]), np.zeros_like(fr[..., 0])], -1)
+        frames[f] = fr
+    p = os.path.join(workdir(pid), name)
+    write_h5_video(p, frames)
+    return sio.load_video(p)
+
+
+def labels_from_poses(video_frames, skel):
+    """video_frames: list of (video, frame_idx, [poses (n_nodes,2) with NaN], [is_predicted flags])."""
+    import sleap_io as sio
+
+    lfs = []
+    for item in video_frames:
+        video, fidx, poses = item[0], item[1], item[2]
+        flags = item[3] if len(item) > 3 else [False] * len(poses)
+        insts = [pred_instance(p, skel, score=0.9) if fl else user_instance(p, skel) for p, fl in zip(poses, flags)]
+        lfs.append(sio.LabeledFrame(video=video, frame_idx=fidx, instances=insts))
+    return sio.Labels(lfs)
